@@ -40,7 +40,8 @@ def rngCallEventsOp : H := fun j => do
   let evs ←
     if inmem then do
       let nMvn ← getNat j "nMvn"
-      pure (Rng.inmemCallEvents rounds.toList nMvn)
+      let nSh ← getNat j "nShuffle"
+      pure (Rng.inmemCallEvents nSh rounds.toList nMvn)
     else do
       let nSh ← getNat j "nShuffle"
       let nT ← getNat j "nTasks"
